@@ -68,6 +68,8 @@ def evaluate(r, trains, edges, taus, mrts, full, be, rank=()):
     r.evaluations += 1
     menu = [None, 0.0] + list(taus)
     res = []
+    T = te - ts
+    ivals = [(ts, ts + T / 2), (ts + T / 4, te - T / 4), (ts + T / 2, te)] if full else []
     try:
         for mt in menu:
             kw = dict(max_tau=mt, MRTS=mrts)
@@ -84,6 +86,13 @@ def evaluate(r, trains, edges, taus, mrts, full, be, rank=()):
                 d["k1"] = kept[0].spikes.tolist()
                 d["k2"] = kept[1].spikes.tolist()
                 d["v"] = float(spk.spike_sync(st1, st2, **kw))
+                # scalar forms with an averaging interval, and through a longer list
+                d["iv"] = []
+                for iv in ivals:
+                    d["iv"].append((float(spk.spike_sync(st1, st2, interval=list(iv), **kw)),
+                                    float(p.avrg(list(iv)))))
+                d["m"] = np.asarray(spk.spike_sync_matrix([st1, st2, st1], **kw), float)[0, 1]
+                d["o"] = float(spk.spike_train_order(st1, st2, normalize=False, **kw))
             res.append(d)
     except Exception as e:
         r.violation(ID, "exception", be, "exception/%s/%s" % (be, cls), case, "results",
@@ -144,6 +153,27 @@ def evaluate(r, trains, edges, taus, mrts, full, be, rank=()):
                                     "filter keeps a spike of a pair although no spike of the "
                                     "other train is closer than max_tau", rank)
                         return
+    # scalar forms see the same (bounded) coincidences as the profile
+    if full:
+        for mt, d in zip(menu, res):
+            sy, smp = d["sy"][1:-1].sum(), d["smp"][1:-1].sum()
+            ve = sy / smp if smp > 0 else 1.0
+            bad = None
+            if abs(d["v"] - ve) > 1e-12 or abs(d["m"] - ve) > 1e-12:
+                bad = ("scalar", ve, {"spike_sync": d["v"], "matrix_entry": d["m"]})
+            elif abs(d["o"] - d["oy"][1:-1].sum()) > 1e-12:
+                bad = ("order_scalar", float(d["oy"][1:-1].sum()), d["o"])
+            else:
+                for iv, (a, b) in zip(ivals, d["iv"]):
+                    if abs(a - b) > 1e-12:
+                        bad = ("scalar.interval", b, {"spike_sync": a, "interval": iv})
+                        break
+            if bad:
+                r.violation(ID, "bound." + bad[0], be, "bound.%s/%s/%s" % (bad[0], be, cls),
+                            dict(case, max_tau=mt), bad[1], bad[2],
+                            "a scalar form counts coincidences that the (max_tau-bounded) profile "
+                            "of the same call does not contain", rank)
+                return
     # monotone: enlarging max_tau never removes a coincidence; None is the largest
     order = list(range(2, len(menu))) + [0]
     for i1, i2 in zip(order[:-1], order[1:]):
